@@ -480,6 +480,10 @@ def perturb(rng, t, domain, scale):
     elif domain == "simplex":
         w = x.clamp_min(1e-12) * noise.exp()
         new = w / w.sum(-1, keepdim=True)  # every row stays on the simplex
+    elif domain == "ordered":
+        # a vector with order constraints between its entries (node heights above tips at 0):
+        # one common positive factor keeps every constraint
+        new = x * math.exp(scale * rng.normal())
     elif domain.startswith("above:"):
         lo = float(domain.split(":")[1])
         new = lo + (x - lo).clamp_min(1e-9) * noise.exp()
